@@ -455,6 +455,21 @@ func (s *Sim) chooseWith(n int, strategic int) int {
 	return v
 }
 
+// DropReplay ends tape-following: from now on choices come from the PRNG
+// (crash sweeps replay a base run up to the crash point and explore freely
+// afterwards).
+//
+//go:norace
+func DropReplay() {
+	s := S
+	if s == nil || s.opt.Replay == nil {
+		return
+	}
+	if !s.opt.Strict {
+		s.opt.Replay = nil
+	}
+}
+
 // Choose is the harness/fault-injection entry: every random decision taken
 // while the episode runs goes through here so that it is on the tape.
 //
